@@ -243,6 +243,10 @@ type tHistory struct {
 	// Close at once: what Send reported as sent is read by the handler
 	Final  string `json:"final,omitempty"`
 	PadKiB int    `json:"pad_kib,omitempty"`
+	// DialCtxEnds (socket transports): the connection is dialled under a context
+	// of its own that is cancelled as soon as NewConnection has returned; it was
+	// only meant to bound the dial
+	DialCtxEnds bool `json:"dial_ctx_ends,omitempty"`
 }
 
 type tViolation struct {
@@ -265,6 +269,7 @@ func tGen(seed int64) tHistory {
 		}
 		h.Calls = append(h.Calls, c)
 	}
+	h.DialCtxEnds = r.Intn(3) == 0
 	if r.Intn(6) == 0 {
 		h.Final, h.PadKiB = "oneway-close", []int{0, 1, 100, 4096}[r.Intn(4)]
 	}
@@ -313,7 +318,14 @@ func tRun(h tHistory, dir string) (viol []tViolation) {
 			return
 		}
 		go func() { done <- svc.DoListen(ctx, 0) }()
-		conn, err = varlink.NewConnection(ctx, addr)
+		dctx, dcancel := context.WithCancel(ctx)
+		conn, err = varlink.NewConnection(dctx, addr)
+		if h.DialCtxEnds {
+			dcancel()
+			time.Sleep(2 * time.Millisecond)
+		} else {
+			defer dcancel()
+		}
 		if err != nil {
 			fail("transport", "connect-failed", "%s: %v", addr, err)
 			svc.Shutdown()
